@@ -113,6 +113,21 @@ def work(item):
             back = vc.rebase(B)
             out.append(decide(q, enc, f"{kind} -> Cartesian -> {kind} returns the components", [x - y for x, y in zip(pad(back.components), u)], dom,
                               {"back": [str(x)[:80] for x in back.components]}))
+        elif kind_of == "rotated_frame":
+            # the curvilinear system is built on a Cartesian frame that is itself rotated (about z, by a symbolic angle) against the
+            # target Cartesian system: rebasing must change the TYPE and the FRAME; textbook: x = x' cos(al) - y' sin(al), y = x' sin(al) + y' cos(al)
+            from symplyphysics.core.coordinate_systems.coordinate_systems import CoordinateSystem, coordinates_transform, coordinates_rotate
+            al = sp.Symbol("al", real=True)
+            C2 = coordinates_rotate(C, al, C.coord_system.k)
+            B2 = coordinates_transform(C2, getattr(CoordinateSystem.System, kind))
+            enc = new_enc()
+            u = sp.symbols("u1:4", real=True)
+            dom = curv_domain(enc, kind, u)
+            got = pad(Vector(list(u), B2).rebase(C).components)
+            xp, yp, zp = to_cart(kind, u)
+            want = [xp * sp.cos(al) - yp * sp.sin(al), xp * sp.sin(al) + yp * sp.cos(al), zp]
+            out.append(decide(q, enc, f"{kind} on a rotated frame -> Cartesian: same geometric vector", [x - y for x, y in zip(got, want)], dom,
+                              {"library": [str(x)[:100] for x in got]}))
         elif kind_of == "products":
             u = sp.symbols("u1:4", real=True)
             w = sp.symbols("w1:4", real=True)
@@ -175,6 +190,19 @@ def work(item):
             else:
                 out.append(decide(q, enc, f"scalar field Cartesian->{kind}: same value at the same physical point", [x - y for x, y in zip(val.args, to_cart(kind, p))], dom,
                                   {"value": str(val)[:120]}))
+            # points given with fewer than three coordinates are zero-padded: the rebased field takes the value it has at the padded point
+            for npt in (1, 2):
+                enc = new_enc()
+                dom = curv_domain(enc, kind, p)
+                fr = f.rebase(B)
+                v_short, v_full = fr(P(*p[:npt])), fr(P(*(list(p[:npt]) + [0] * (3 - npt))))
+                if not all(isinstance(v_, sp.core.function.AppliedUndef) and v_.func == F for v_ in (v_short, v_full)):
+                    leaked = [str(a_) for a_ in sp.sympify(v_short).atoms(sp.vector.scalar.BaseScalar)]
+                    out.append({"name": f"scalar field Cartesian->{kind}: point with {npt} coordinate(s) = zero-padded point", "verdict": "candidate",
+                                "why": f"value at a short point is not F(...): {v_short} (unsubstituted {leaked})"})
+                else:
+                    out.append(decide(q, enc, f"scalar field Cartesian->{kind}: point with {npt} coordinate(s) = zero-padded point",
+                                      [x - y for x, y in zip(v_short.args, v_full.args)], dom, {"value": str(v_short)[:120]}))
             # curvilinear field -> Cartesian, evaluated at a Cartesian point: arguments must be that point's curvilinear coordinates
             enc = new_enc()
             c = sp.symbols("c1:4", real=True)
@@ -234,6 +262,14 @@ try:
         for u in curvs:
             v = Vector(list(u), B); vc = pad(v.rebase(C).components); back = pad(v.rebase(C).rebase(B).components)
             if not all(close(x, y) for x, y in zip(vc, c11.to_cart(kind, u))) or not all(close(x, y) for x, y in zip(back, u)): bad = True; print(u, vc, back)
+    elif kind_of == "rotated_frame":
+        from symplyphysics.core.coordinate_systems.coordinate_systems import CoordinateSystem, coordinates_transform, coordinates_rotate
+        al = sp.Rational(7, 10)
+        B2 = coordinates_transform(coordinates_rotate(C, al, C.coord_system.k), getattr(CoordinateSystem.System, kind))
+        for u in curvs:
+            got = pad(Vector(list(u), B2).rebase(C).components); xp, yp, zp = c11.to_cart(kind, u)
+            want = [xp * sp.cos(al) - yp * sp.sin(al), xp * sp.sin(al) + yp * sp.cos(al), zp]
+            if not all(close(x, y) for x, y in zip(got, want)): bad = True; print("rotated frame", u, [N(x) for x in got], [N(x) for x in want])
     elif kind_of == "products":
         for u, w in zip(curvs, reversed(curvs)):
             vu, vw = Vector(list(u), B), Vector(list(w), B); cu, cw = c11.to_cart(kind, u), c11.to_cart(kind, w)
@@ -254,6 +290,10 @@ try:
         for u in curvs:
             X = c11.to_cart(kind, u)
             if not close(f(P(*u)), fc.subs({{x: X[0], y: X[1], z: X[2]}})): bad = True; print("field C->", kind, u)
+            for npt in (1, 2):
+                vs_, vf_ = f(P(*u[:npt])), f(P(*(list(u[:npt]) + [0] * (3 - npt))))
+                if sp.sympify(vs_).free_symbols or sp.sympify(vs_).atoms(sp.vector.scalar.BaseScalar) or not close(vs_, vf_):
+                    bad = True; print("point with", npt, "coordinates:", vs_, "zero-padded point:", vf_)
         gq = q[0]**2 * sp.cos(q[1]) + q[2] * q[0] + sp.sin(q[1] / 2)
         g = ScalarField.from_expression(gq, B).rebase(C)
         for u in curvs:
@@ -325,7 +365,7 @@ def refusals(ctx):
 
 def run(ctx):
     timeout = 120000 if ctx.tier == "thorough" else 20000
-    items = [(k, kind, timeout) for kind in ("CYLINDRICAL", "SPHERICAL") for k in ("cart_roundtrip", "curv_roundtrip", "products", "scalar_field")]
+    items = [(k, kind, timeout) for kind in ("CYLINDRICAL", "SPHERICAL") for k in ("cart_roundtrip", "curv_roundtrip", "rotated_frame", "products", "scalar_field")]
     ctx.explanation = (
         "Engine S. Real Vector.rebase (transformation tables, to_sympy_vector/express/from_sympy_vector), curvilinear dot_vectors / "
         "vector_magnitude / scale_vector, ScalarField.rebase and __call__ run on symbolic components / points and an uninterpreted field "
